@@ -59,6 +59,9 @@ theorem fragT_simple {s : Stmt} (h : FragT s = true) (h1 : ∀ c t e, s ≠ .ifT
   | set lv v => simp only [FragT, Bool.and_eq_true] at h; exact h.1
   | call f as => simpa [FragT] using h
   | exit => rfl
+  | put m v lv => simpa [FragT] using h
+  | delete t => simpa [FragT] using h
+  | hilite t => simpa [FragT] using h
   | ifThen c t e => exact absurd rfl (h1 c t e)
   | repeatWhile c b => exact absurd rfl (h2 c b)
   | repeatWith v a b d body => exact absurd rfl (h3 v a b d body)
@@ -131,9 +134,15 @@ theorem embSrc1_wf : (s : Stmt) → (x : Src) → EmbSrc1 s x → P.wfs (lower1 
   | .exit, x, h => by
     obtain ⟨sm, p, rfl, ho, _, hp⟩ := h
     exact ⟨by simp [lower1, P.wfs, P.wf, ho, plain_simpleCode hp], nsts_lower1_pos _⟩
-  | .put .., x, h => by obtain ⟨sm, p, rfl, ho, he, hp⟩ := h; exact absurd he (by simp [EmbS])
-  | .delete .., x, h => by obtain ⟨sm, p, rfl, ho, he, hp⟩ := h; exact absurd he (by simp [EmbS])
-  | .hilite .., x, h => by obtain ⟨sm, p, rfl, ho, he, hp⟩ := h; exact absurd he (by simp [EmbS])
+  | .put .., x, h => by
+    obtain ⟨sm, p, rfl, ho, _, hp⟩ := h
+    exact ⟨by simp [lower1, P.wfs, P.wf, ho, plain_simpleCode hp], nsts_lower1_pos _⟩
+  | .delete .., x, h => by
+    obtain ⟨sm, p, rfl, ho, _, hp⟩ := h
+    exact ⟨by simp [lower1, P.wfs, P.wf, ho, plain_simpleCode hp], nsts_lower1_pos _⟩
+  | .hilite .., x, h => by
+    obtain ⟨sm, p, rfl, ho, _, hp⟩ := h
+    exact ⟨by simp [lower1, P.wfs, P.wf, ho, plain_simpleCode hp], nsts_lower1_pos _⟩
   | .mcall .., x, h => by obtain ⟨sm, p, rfl, ho, he, hp⟩ := h; exact absurd he (by simp [EmbS])
   | .tell .., x, h => by obtain ⟨sm, p, rfl, ho, he, hp⟩ := h; exact absurd he (by simp [EmbS])
   | .repeatIn .., x, h => by obtain ⟨sm, p, rfl, ho, he, hp⟩ := h; exact absurd he (by simp [EmbS])
